@@ -4,3 +4,15 @@ IO/IO.vos IO/IO.vok IO/IO.required_vos: IO/IO.v
 IO/IOTheory.vo IO/IOTheory.glob IO/IOTheory.v.beautified IO/IOTheory.required_vo: IO/IOTheory.v IO/IO.vo
 IO/IOTheory.vio: IO/IOTheory.v IO/IO.vio
 IO/IOTheory.vos IO/IOTheory.vok IO/IOTheory.required_vos: IO/IOTheory.v IO/IO.vos
+IO/Parse.vo IO/Parse.glob IO/Parse.v.beautified IO/Parse.required_vo: IO/Parse.v IO/IO.vo
+IO/Parse.vio: IO/Parse.v IO/IO.vio
+IO/Parse.vos IO/Parse.vok IO/Parse.required_vos: IO/Parse.v IO/IO.vos
+IO/ParseTheory.vo IO/ParseTheory.glob IO/ParseTheory.v.beautified IO/ParseTheory.required_vo: IO/ParseTheory.v IO/IO.vo IO/IOTheory.vo IO/Parse.vo
+IO/ParseTheory.vio: IO/ParseTheory.v IO/IO.vio IO/IOTheory.vio IO/Parse.vio
+IO/ParseTheory.vos IO/ParseTheory.vok IO/ParseTheory.required_vos: IO/ParseTheory.v IO/IO.vos IO/IOTheory.vos IO/Parse.vos
+Icc/Icc.vo Icc/Icc.glob Icc/Icc.v.beautified Icc/Icc.required_vo: Icc/Icc.v IO/IO.vo IO/Parse.vo
+Icc/Icc.vio: Icc/Icc.v IO/IO.vio IO/Parse.vio
+Icc/Icc.vos Icc/Icc.vok Icc/Icc.required_vos: Icc/Icc.v IO/IO.vos IO/Parse.vos
+Icc/HeaderProofs.vo Icc/HeaderProofs.glob Icc/HeaderProofs.v.beautified Icc/HeaderProofs.required_vo: Icc/HeaderProofs.v IO/IO.vo IO/IOTheory.vo IO/Parse.vo IO/ParseTheory.vo Icc/Icc.vo
+Icc/HeaderProofs.vio: Icc/HeaderProofs.v IO/IO.vio IO/IOTheory.vio IO/Parse.vio IO/ParseTheory.vio Icc/Icc.vio
+Icc/HeaderProofs.vos Icc/HeaderProofs.vok Icc/HeaderProofs.required_vos: Icc/HeaderProofs.v IO/IO.vos IO/IOTheory.vos IO/Parse.vos IO/ParseTheory.vos Icc/Icc.vos
